@@ -51,9 +51,15 @@ func main() {
 		run.Violation(sig, detail, map[string]any{"case": detail})
 	}
 	for _, c := range classes {
-		code, has := withCode[c.name]
-		if !has {
-			continue
+		// "has a gRPC code": the library maps the bare class to a specific code. The table above is what the
+		// unchanged tree does; a class that acquires a code through a change of the tables is covered as well.
+		code := gerrors.GRPCStatusCode(c.err)
+		if want, has := withCode[c.name]; has {
+			if code != want {
+				fail("class-code "+c.name, fmt.Sprintf("GRPCStatusCode(%s) = %v, the class is documented to map to %v", c.name, code, want))
+			}
+		} else if code == codes.Internal {
+			continue // no code of its own (falls back to Internal)
 		}
 		for depth := 0; depth <= 4; depth++ {
 			for embedAt := -1; embedAt <= depth; embedAt++ { // -1: no embedded object; k: embedded after k wraps
